@@ -282,6 +282,16 @@ class Interp:
     def _external(self, module: str, attr: str):
         if f"{module}.{attr}" in self.external:
             return PyCallable(self.external[f"{module}.{attr}"])
+        if module == "re" and attr in ("split", "match", "fullmatch", "sub", "findall"):
+            def _re(it, a, k, attr=attr):
+                import re as _re_mod
+                if all(isinstance(x, (str, int)) for x in a):
+                    r = getattr(_re_mod, attr)(*a)  # constant folding of a pure function on literal arguments
+                    if attr in ("match", "fullmatch"):
+                        return None if r is None else Unknown("match object")
+                    return r
+                raise Undecided(f"re.{attr} on symbolic text")
+            return PyCallable(_re)
         if module == "collections" and attr == "defaultdict":
             def _dd(it, a, k):
                 d = {"__default_factory__": a[0] if a else None}
@@ -878,6 +888,8 @@ class Interp:
         if isinstance(op, (ast.FloorDiv, ast.Mod)) and a.is_const() and b.is_const():
             x, y = a.const_value(), b.const_value()
             return simplify_num(RF.of(x // y if isinstance(op, ast.FloorDiv) else x % y))
+        if isinstance(op, (ast.FloorDiv, ast.Mod)):
+            return simplify_num(fn_atom("floordiv" if isinstance(op, ast.FloorDiv) else "mod", a, b))
         raise Undecided(f"operator {type(op).__name__} on symbolic numbers")
 
     def rec_op(self, rec: Rec, name: str, args):
@@ -1452,7 +1464,14 @@ class Interp:
             return tuple(a[0].f.values())
         if name == "dataclasses.fields":
             c = a[0].cls if isinstance(a[0], Rec) else a[0]
-            return [Rec(ClassRef("dataclasses", "Field"), {"name": n, "default": None}) for n, _ in self.class_fields(c)]
+            out = []
+            for n, (m, dn) in self.class_fields(c):
+                try:
+                    dv = self.eval(dn, {"__mod__": m}) if dn is not None else Unknown("MISSING")
+                except (Undecided, PyRaise):
+                    dv = Unknown("default")
+                out.append(Rec(ClassRef("dataclasses", "Field"), {"name": n, "default": dv, "type": Unknown("type")}))
+            return out
         if name == "operator.matmul":
             return self.binop(ast.MatMult(), a[0], a[1])
         if name == "pow":
